@@ -858,7 +858,10 @@ def get_length_scale(
         # smooth the structure factor
         smoothing = kwargs.pop("smoothing", None)
         if smoothing is None:
-            smoothing = 0.01 * scalar_field.grid.typical_discretization
+            # The smoothing acts on the wave numbers. We choose a small fraction of the
+            # resolution in Fourier space, so the result is independent of the unit of
+            # length used to describe the grid
+            smoothing = 1e-3 * 2 * np.pi / scalar_field.grid.cuboid.size.max()
         sf_smooth = SmoothData1D(k_mag, sf, sigma=smoothing)
 
         # find the maximum
